@@ -10,6 +10,7 @@ Q4 the C wrappers delegate to the member of the same name (decided by C17.D1; co
 import re
 from lib import ex as X
 from lib import tables as T
+from lib.norm import lin
 from lib.report import Ctx
 from rules import common as C
 from spec import whatwg as W
@@ -45,6 +46,8 @@ def run(ctx, tier):
                  ("Q11", "the three iterators hand out name, value and pair respectively, and stop exactly at the end of the list"),
                  ("Q12", "effect of each operation on the pair list: reset discards the old list on every path and then only appends; "
                          "append appends on every path and does nothing else; remove only erases; sort only reorders; the parser only appends"),
+                 ("Q13", "urlencoded parser: sequences are split at '&' and at the first '='; with L the delimiter's position the piece before is "
+                         "substr(0, L) and the rest starts at L + 1"),
                  ("Q5", "form-urlencoded decoder: a byte is copied verbatim only after it was tested not to be '+', and ' ' is written only for '+'")):
         ctx.rule(r, t)
     cfgs = C.configs_for(tier, thorough=["release", "devchecks", "amalgamated", "nopattern"])
@@ -258,6 +261,75 @@ def check_operation_effects(ctx, fx):
     ctx.floor("Q12", n, 8, "operation effect obligations")
 
 
+def check_split_arithmetic(ctx, fx):
+    """Q13.  application/x-www-form-urlencoded parsing: sequences are what lies between two '&'; "if bytes contains a 0x3D (=),
+    then let name be the bytes from the start of bytes up to but excluding its first 0x3D (=), and let value be the bytes, if
+    any, after the first 0x3D (=)".  With L the position found by find('&') / find('='):  the piece before is substr(0, L),
+    the rest starts at L + 1 (the delimiter is one byte) — any other offset built from L drops or duplicates a byte."""
+    fs = [g for g in fx.functions if "url_search_params::initialize" in g["key"]]
+    n = 0
+    for g in fs:
+        pos = {}          # local id -> delimiter byte
+        for b in g["blocks"]:
+            for st in b["stmts"]:
+                if st["k"] == "decl":
+                    for v in st["vars"]:
+                        i0 = X.strip(v.get("init")) if v.get("init") is not None else None
+                        if isinstance(i0, dict) and i0.get("k") == "call" and i0.get("name") == "find" and i0.get("args"):
+                            d = X.const_val(i0["args"][0])
+                            if d is not None:
+                                pos[v["id"]] = (v["name"], d)
+        for d_id, (nm, d) in pos.items():
+            ctx.check("Q13", "%s: delimiter searched for `%s`" % (g["name"] if not g.get("lambda") else "initialize lambda", nm),
+                      d in (0x26, 0x3D), "'%s'" % chr(d), "the urlencoded parser splits on '&' and on the first '=', not on %r" % chr(d),
+                      where=g["loc"].replace("/repo/", ""))
+        for nd, st, b in C.all_nodes(g):
+            if not (nd.get("k") == "call" and nd.get("name") in ("substr", "remove_prefix", "remove_suffix") and nd.get("args")):
+                continue
+            used = [m for a in nd["args"] for m in X.walk(a) if m.get("k") == "ref" and m.get("id") in pos]
+            if not used:
+                continue
+            L = used[0]
+            n += 1
+            forms = []
+            for a in nd["args"]:
+                ts, c = lin(a)
+                forms.append((ts, c))
+            me = ("+" + L["name"],)
+            if nd["name"] == "substr":
+                a0 = forms[0]
+                a1 = forms[1] if len(forms) > 1 else None
+                before = a0 == ((), 0) and a1 is not None and a1 == (me, 0)                 # substr(0, L)
+                after = a0 == (me, 1) and (a1 is None or not any(m.get("k") == "ref" and m.get("id") in pos for m in X.walk(nd["args"][1])))
+                ok = before or after
+            else:
+                ok = nd["name"] == "remove_prefix" and forms[0] == (me, 1)                    # remove_prefix(L + 1)
+            ctx.check("Q13", "initialize: %s" % X.show(nd)[:60], ok, "substr(0, L) / substr(L + 1) / remove_prefix(L + 1)",
+                      "`%s`: with L the position of the delimiter, the piece before it is substr(0, L) and what follows starts at L + 1; "
+                      "this offset keeps the delimiter in the name/value or drops a byte of it" % X.show(nd)[:80],
+                      where=(st.get("loc") or g["loc"]).replace("/repo/", ""))
+    ctx.floor("Q13", n, 4, "offsets computed from a delimiter position in the urlencoded parser")
+
+
+def check_get_all_exhaustive(ctx, fx):
+    """Q9b.  get_all(name) returns the values of ALL pairs whose name is name, in list order: the loop over the list is left only
+    when the list is exhausted."""
+    from lib import loops as L
+    f = fx.fn1("ada::url_search_params::get_all")
+    blk = {b["id"]: b for b in f["blocks"]}
+    loops_ = L.natural_loops(f)
+    ok_any = False
+    for h, body, latches in loops_:
+        early = [(x, e["to"]) for x in body for e in blk[x]["succ"] if e["to"] not in body and x != h and not e.get("pruned")]
+        ok_any = True
+        ctx.check("Q9", "get_all visits every pair", not early, "the loop is left only at its head",
+                  "url_search_params::get_all leaves its loop over the pairs early (block %s): values of later pairs with the same name "
+                  "are not returned" % (early[0][0] if early else ""), where=f["loc"].replace("/repo/", ""))
+    if not ok_any:
+        # an algorithm call instead of a loop: nothing to decide here
+        ctx.ok("Q9", "get_all visits every pair", "no hand-written loop", nontrivial=False)
+
+
 def check_set(ctx, fx):
     """Q6.  URL Standard, URLSearchParams.set(): "if this's list contains any tuples whose name is name, then set the value of
     the first such tuple to value and remove the others".  Structurally: on every path of url_search_params::set() that goes
@@ -311,7 +383,60 @@ def check_set(ctx, fx):
                   "there is a path through set() on which a pair with the name exists but set() does not %s: the list then still "
                   "holds the old value or the other pairs of that name" % text[:-1].replace("overwrites", "overwrite").replace("erases", "erase"),
                   where=f["loc"].replace("/repo/", ""))
-    ctx.floor("Q6", 2, 2, "obligations of set()")
+    # the other edge: "Otherwise, append a new tuple consisting of name and value to this's list" -- on every path
+    nf = None
+    for b in f["blocks"]:
+        for e in b["succ"]:
+            if e["to"] == found_entry:
+                nf = [e2["to"] for e2 in b["succ"] if e2["to"] != found_entry and not e2.get("pruned")]
+    escaped = True
+    if nf:
+        seen, st, escaped = set(), list(nf), False
+        while st:
+            x = st.pop()
+            if x in seen:
+                continue
+            seen.add(x)
+            if any(n.get("k") == "call" and n.get("name") in ("emplace_back", "push_back") and "params" in X.show(n.get("recv"))
+                   for s_ in blk[x]["stmts"] for n in X.stmt_nodes(s_)):
+                continue
+            if x == f["exit"]:
+                escaped = True
+                break
+            st += [e["to"] for e in blk[x]["succ"] if not e.get("pruned")]
+    ctx.check("Q6", "url_search_params::set appends the pair on every path where the name does not exist", not escaped, "on every path",
+              "there is a path through set() on which no pair has the name and none is appended: 'Otherwise, append a new tuple "
+              "consisting of name and value to this's list'", where=f["loc"].replace("/repo/", ""))
+    # the compaction starts BEHIND the pair whose value was overwritten (it has the name too: starting at it removes it as well)
+    stored = set()
+    for b in f["blocks"]:
+        for s_ in b["stmts"]:
+            for n in X.stmt_nodes(s_):
+                if n.get("k") == "assign" and "second" in X.show(n["lhs"]):
+                    for m in X.walk(n["lhs"]):
+                        if m.get("k") == "ref" and m.get("kind") == "local":
+                            stored.add(m.get("id"))
+                if n.get("k") == "call" and n.get("name") in ("operator=", "assign") and n.get("recv") is not None and "second" in X.show(n["recv"]):
+                    for m in X.walk(n["recv"]):
+                        if m.get("k") == "ref" and m.get("kind") == "local":
+                            stored.add(m.get("id"))
+    nrm = 0
+    for b in f["blocks"]:
+        for s_ in b["stmts"]:
+            for n in X.stmt_nodes(s_):
+                if n.get("k") == "call" and n.get("name") in ("remove_if", "erase_if") and n.get("args") and not n.get("recv") is not None or \
+                        (n.get("k") == "call" and (n.get("qname") or "").endswith("remove_if") and n.get("args")):
+                    a0 = X.strip(n["args"][0])
+                    while isinstance(a0, dict) and a0.get("k") == "construct" and len(a0.get("args", [])) == 1:
+                        a0 = X.strip(a0["args"][0])
+                    if isinstance(a0, dict) and a0.get("k") in ("ref", "call", "bin", "un"):
+                        nrm += 1
+                        bare = a0.get("k") == "ref" and a0.get("id") in stored
+                        ctx.check("Q6", "url_search_params::set compacts the list behind the first pair of that name", not bare,
+                                  X.show(a0)[:40],
+                                  "the compaction in set() starts at `%s`, the very pair whose value was just overwritten: it has the name "
+                                  "too and is removed with the others" % X.show(a0)[:40], where=(s_.get("loc") or f["loc"]).replace("/repo/", ""))
+    ctx.floor("Q6", 3 + nrm, 3, "obligations of set()")
 
 
 def check_compaction_aliasing(ctx, fx):
@@ -590,6 +715,8 @@ def check(ctx, fx):
     check_compaction_aliasing(ctx, fx)
     check_set(ctx, fx)
     check_operation_effects(ctx, fx)
+    check_split_arithmetic(ctx, fx)
+    check_get_all_exhaustive(ctx, fx)
     # ---- Q1 ----
     f = fx.fn1("ada::url_search_params::sort")
     sorts = [n for n, s, b in C.all_nodes(f) if n.get("k") == "call" and "sort" in (n.get("qname") or n.get("callee") or "")]
